@@ -57,7 +57,9 @@ def _related(a: str, b: str) -> bool:
 def _mutated_params(fn: FuncNode, nomut: T.Set[str]) -> T.Optional[T.Set[str]]:
     """Parameters of `fn` whose object the body may modify: a store/del through the parameter, an augmented
     assignment, a call (not known to be harmless) that mentions it, or an alias of it.  None: cannot tell."""
-    params = {a.arg for a in fn.args.posonlyargs + fn.args.args + fn.args.kwonlyargs}
+    # a parameter declared as an immutable builtin (str, int, ..) cannot be modified through
+    params = {a.arg for a in fn.args.posonlyargs + fn.args.args + fn.args.kwonlyargs
+              if not (a.annotation is not None and ast.unparse(a.annotation).strip('\'"') in ('str', 'int', 'bool', 'float', 'bytes'))}
     out: T.Set[str] = set()
     for n in ast.walk(fn):
         if isinstance(n, (ast.Attribute, ast.Subscript)) and isinstance(n.ctx, (ast.Store, ast.Del)):
@@ -90,6 +92,19 @@ def _only_read(v: ast.AST, name: ast.Name) -> bool:
         if isinstance(n, ast.Call) and any(a is name for a in list(n.args) + [k.value for k in n.keywords]):
             return False
     return True
+
+
+RECEIVER_MUTATORS = {'append', 'extend', 'insert', 'add', 'update', 'remove', 'discard', 'pop', 'clear', 'sort', 'reverse', 'setdefault', 'appendleft', 'popleft'}
+
+
+def _inside_call(root: ast.AST, name: ast.Name) -> bool:
+    """`name` occurs inside a call (or the test of a conditional expression) within `root`."""
+    for x in ast.walk(root):
+        if isinstance(x, ast.Call) and any(n is name for n in ast.walk(x)):
+            return True
+        if isinstance(x, ast.IfExp) and any(n is name for n in ast.walk(x.test)):
+            return True
+    return False
 
 
 class _State:
@@ -278,6 +293,24 @@ class _FoldLen(ast.NodeTransformer):
 
     def visit_Compare(self, n: ast.Compare) -> ast.AST:
         self.generic_visit(n)
+        if len(n.ops) == 1 and isinstance(n.left, ast.IfExp):
+            # a test on a selected value: `(a if c else b) is None`  ->  `(a is None) if c else (b is None)`
+            f = n.left
+            return self.visit(ast.copy_location(ast.IfExp(test=f.test, body=ast.Compare(left=f.body, ops=n.ops, comparators=copy.deepcopy(n.comparators)),
+                                                          orelse=ast.Compare(left=f.orelse, ops=n.ops, comparators=copy.deepcopy(n.comparators))), n))
+        if len(n.ops) == 1 and isinstance(n.ops[0], (ast.Is, ast.IsNot)) and isinstance(n.comparators[0], ast.Constant) and n.comparators[0].value is None \
+                and (attr_chain(n.left) or '').startswith('operator.'):
+            return ast.copy_location(ast.Constant(value=isinstance(n.ops[0], ast.IsNot)), n)       # a function of the operator module is not None
+        if len(n.ops) == 1 and isinstance(n.ops[0], (ast.Eq, ast.NotEq)):
+            # `s[:2] == '>='` (a prefix of exactly the literal's length)  ->  `s.startswith('>=')`
+            for sl, lit in ((n.left, n.comparators[0]), (n.comparators[0], n.left)):
+                if isinstance(sl, ast.Subscript) and isinstance(sl.slice, ast.Slice) and sl.slice.lower is None and sl.slice.step is None \
+                        and isinstance(sl.slice.upper, ast.Constant) and isinstance(lit, ast.Constant) and isinstance(lit.value, str) \
+                        and isinstance(sl.slice.upper.value, int) and sl.slice.upper.value == len(lit.value) > 0:
+                    call: ast.AST = ast.Call(func=ast.Attribute(value=sl.value, attr='startswith', ctx=ast.Load()), args=[lit], keywords=[])
+                    if isinstance(n.ops[0], ast.NotEq):
+                        call = ast.UnaryOp(op=ast.Not(), operand=call)
+                    return ast.copy_location(call, n)
         if len(n.ops) == 1 and isinstance(n.ops[0], (ast.Is, ast.IsNot)) and _litmatch(n.left) is not None \
                 and isinstance(n.comparators[0], ast.Constant) and n.comparators[0].value is None:
             return ast.copy_location(ast.Constant(value=isinstance(n.ops[0], ast.IsNot)), n)       # a match object is not None
@@ -296,6 +329,10 @@ class _FoldLen(ast.NodeTransformer):
             return self.visit(ast.copy_location(ast.IfExp(test=f.test, body=ast.Call(func=f.body, args=copy.deepcopy(n.args), keywords=copy.deepcopy(n.keywords)),
                                                           orelse=ast.Call(func=f.orelse, args=copy.deepcopy(n.args), keywords=copy.deepcopy(n.keywords))), n))
         self.generic_visit(n)
+        if isinstance(n.func, ast.Attribute) and n.func.attr in ('strip', 'lstrip', 'rstrip') and not n.args and not n.keywords \
+                and isinstance(n.func.value, ast.Call) and isinstance(n.func.value.func, ast.Attribute) and not n.func.value.args and not n.func.value.keywords \
+                and n.func.value.func.attr in ('strip', n.func.attr):
+            return n.func.value          # stripping blanks twice is stripping them once
         if isinstance(n.func, ast.Attribute) and _litmatch(n.func.value) is not None and not n.keywords \
                 and (not n.args or (len(n.args) == 1 and isinstance(n.args[0], ast.Constant) and n.args[0].value == 0)):
             lit = _litmatch(n.func.value)
@@ -322,9 +359,23 @@ class _FoldLen(ast.NodeTransformer):
         if isinstance(n.func, ast.Attribute) and n.func.attr == 'get' and len(n.args) in (1, 2) and not n.keywords:
             d = self.table(n.func.value)
             if d is not None:
-                v = self.lookup(d, n.args[0], n.args[1] if len(n.args) == 2 else ast.Constant(value=None))
+                default = n.args[1] if len(n.args) == 2 else ast.Constant(value=None)
+                v = self.lookup(d, n.args[0], default)
                 if v is not None:
                     return v
+                if not isinstance(n.args[0], ast.Constant) and 0 < len(d.keys) <= 16 and all(isinstance(k, ast.Constant) for k in d.keys):
+                    # B5  a lookup with a computed key in a small constant table is the chain `v1 if K == k1 else v2 if K == k2 .. else default`
+                    out: ast.AST = copy.deepcopy(default)
+                    for k, val in reversed(list(zip(d.keys, d.values))):
+                        out = ast.IfExp(test=ast.Compare(left=copy.deepcopy(n.args[0]), ops=[ast.Eq()], comparators=[copy.deepcopy(k)]),     # type: ignore[list-item]
+                                        body=copy.deepcopy(val), orelse=out)
+                    return self.visit(ast.copy_location(ast.fix_missing_locations(ast.copy_location(out, n)), n))
+        if isinstance(n.func, ast.Call) and (attr_chain(n.func.func) or '').split('.')[-1] == 'partial' and n.func.args \
+                and not any(isinstance(a, ast.Starred) for a in list(n.func.args) + list(n.args)) and all(k.arg is not None for k in n.func.keywords + n.keywords):
+            # A3  `partial(f, a, k=v)(x)`  ->  `f(a, x, k=v)`
+            later = {k.arg for k in n.keywords}
+            return self.visit(ast.copy_location(ast.Call(func=n.func.args[0], args=list(n.func.args[1:]) + list(n.args),
+                                                         keywords=[k for k in n.func.keywords if k.arg not in later] + list(n.keywords)), n))
         return n
 
 
@@ -452,7 +503,7 @@ class Normaliser:
             for n in ast.walk(module):
                 if isinstance(n, (ast.FunctionDef, ast.AsyncFunctionDef)):
                     self.callees.setdefault(n.name, []).append(n)
-        self.pure = set(INLINE_CALLS) | set(calls) | {LITMATCH, 'min', 'max'}
+        self.pure = set(INLINE_CALLS) | set(calls) | {LITMATCH, 'min', 'max', 'partial'}
         self.nomut = self.pure | NOMUT_CALLS
         self.budget = budget
         self.dropped: T.Set[str] = set()
@@ -491,6 +542,13 @@ class Normaliser:
         of that name in the module is answered from a summary of the callee (which parameters it stores into or
         hands to calls that are not known to be harmless); otherwise: every object the call mentions."""
         everything = names_in(c)
+        if isinstance(c.func, ast.Attribute) and c.func.attr in RECEIVER_MUTATORS:
+            # list/set/dict methods change their receiver, not their arguments; calls inside the receiver expression are judged on their own
+            recv = c.func.value
+            inner = {n.id for x in ast.walk(recv) if isinstance(x, ast.Call) for n in ast.walk(x) if isinstance(n, ast.Name)}
+            if isinstance(recv, ast.IfExp):
+                inner |= names_in(recv.test)
+            return {n.id for n in ast.walk(recv) if isinstance(n, ast.Name)} - (inner - {n.id for n in ast.walk(recv) if isinstance(n, ast.Name) and not _inside_call(recv, n)})
         d = self.callees.get(_callee(c), [None, None])
         if len(d) != 1 or d[0] is None or any(isinstance(a, ast.Starred) for a in c.args) or any(k.arg is None for k in c.keywords):
             return everything
@@ -542,6 +600,18 @@ class Normaliser:
             rw = self.rewrite(s)
             if rw is not None:
                 return out + self.block(rw + list(stmts[i + 1:]), st)
+            if isinstance(s, (ast.Assign, ast.AnnAssign)) and getattr(s, 'value', None) is not None:
+                tg = s.targets if isinstance(s, ast.Assign) else [s.target]
+                if len(tg) == 1 and isinstance(tg[0], ast.Name) and tg[0].id not in self.nodrop:
+                    try:
+                        v0 = self.expr(s.value, st.copy())
+                    except Undecided:
+                        v0 = None
+                    if isinstance(v0, ast.IfExp):
+                        # C4  `x = A if c else B`  ->  `if c: x = A` / `else: x = B` (then every use sees one definition)
+                        mk = lambda val: ast.copy_location(ast.Assign(targets=[ast.Name(id=tg[0].id, ctx=ast.Store())], value=val), s)     # noqa: E731
+                        node = ast.copy_location(ast.If(test=v0.test, body=[mk(v0.body)], orelse=[mk(v0.orelse)]), s)
+                        return out + self.block([node] + list(stmts[i + 1:]), st)
             if isinstance(s, ast.For) and isinstance(s.target, ast.Name) and not s.orelse:
                 # D1 with the bound hoisted into a local (`n = min(len(a), len(b)); for i in range(n)`): resolve it first
                 try:
@@ -634,6 +704,16 @@ class Normaliser:
                     and isinstance(h.body[0], ast.Assign) and len(h.body[0].targets) == 1 and ast.unparse(h.body[0].targets[0]) == b.targets[0].id:
                 return [loc(ast.Assign(targets=[b.targets[0]], value=ast.Call(func=ast.Attribute(value=b.value.value, attr='get', ctx=ast.Load()),
                                                                                 args=[b.value.slice, h.body[0].value], keywords=[])))]
+        # C4  `for t in (A if c else B): body`  ->  `if c: for t in A: body` / `else: for t in B: body`
+        if isinstance(s, ast.For) and isinstance(s.iter, ast.IfExp):
+            mkf = lambda it: loc(ast.For(target=s.target, iter=it, body=copy.deepcopy(s.body), orelse=copy.deepcopy(s.orelse)))     # noqa: E731
+            return [loc(ast.If(test=s.iter.test, body=[mkf(s.iter.body)], orelse=[mkf(s.iter.orelse)]))]
+        # C4  `(A if c else B).m(args)` as a statement  ->  `if c: A.m(args)` / `else: B.m(args)`
+        if isinstance(s, ast.Expr) and isinstance(s.value, ast.Call) and isinstance(s.value.func, ast.Attribute) and isinstance(s.value.func.value, ast.IfExp):
+            c0, f0 = s.value, s.value.func.value
+            mkc = lambda recv: loc(ast.Expr(value=ast.Call(func=ast.Attribute(value=recv, attr=c0.func.attr, ctx=ast.Load()),      # noqa: E731
+                                                           args=copy.deepcopy(c0.args), keywords=copy.deepcopy(c0.keywords))))
+            return [loc(ast.If(test=f0.test, body=[mkc(f0.body)], orelse=[mkc(f0.orelse)]))]
         # D3  `for T in map(f, xs): body`  ->  `for _x in xs: T = f(_x); body`
         if isinstance(s, ast.For) and isinstance(s.iter, ast.Call) and isinstance(s.iter.func, ast.Name) and s.iter.func.id == 'map' \
                 and len(s.iter.args) == 2 and not s.iter.keywords and attr_chain(s.iter.args[0]) is not None and 'map' not in self.locals:
@@ -922,6 +1002,12 @@ class Normaliser:
                 st.stale[n] = f'`{n}` may be rebound inside a nested block'
         probe = st.copy()
         for c in ast.walk(s):
+            if isinstance(c, ast.Call) and isinstance(c.func, ast.Name) and c.func.id in probe.env:
+                # a callable bound to a local (`f = partial(g, a)`, `f = g`): judge the call it stands for
+                try:
+                    c = _FoldLen(self.module, self.locals, self.local_table).visit(_Sub(probe, set()).visit(copy.deepcopy(c)))
+                except Undecided:
+                    pass
             if isinstance(c, ast.Call) and _callee(c) not in self.nomut:
                 # conservatively: the raw names of the call (before substitution) and whatever their definitions read
                 for r in self.may_change(c):
